@@ -1287,7 +1287,7 @@ func runHistories(r *core.Run, prop string) {
 		// a collection at a point of the history that is a function of the run index
 		s.GCAtStep = int(r.Cfg.Index / 8 * 37 % 300)
 	}
-	if msg := s.Run(400000, nil); msg != "" {
+	if msg := s.Run(4000000, nil); msg != "" {
 		r.Fail(prop, "liveness", "scheduler", "stuck", "%s", msg)
 		return
 	}
